@@ -307,28 +307,67 @@ class Evaluated:
     pass
 
 
+PUBLIC_ATTRS = {
+    'RectangularROI': ('xmin', 'xmax', 'ymin', 'ymax', 'theta'),
+    'EllipticalROI': ('xc', 'yc', 'radius_x', 'radius_y', 'theta'),
+    'CircularROI': ('xc', 'yc', 'radius'),
+    'CircularAnnulusROI': ('xc', 'yc', 'inner_radius', 'outer_radius'),
+    'RangeROI': ('ori', 'min', 'max'), 'XRangeROI': ('ori', 'min', 'max'), 'YRangeROI': ('ori', 'min', 'max'),
+    'PolygonalROI': ('vx', 'vy', 'theta'),
+}
+
+
+def public_state(roi):
+    """every public attribute that defines the region, as plain Python values (+ the reported centre)"""
+    out = {'class': type(roi).__name__}
+    for a in PUBLIC_ATTRS[type(roi).__name__]:
+        v = getattr(roi, a)
+        out[a] = [float(x) for x in v] if isinstance(v, (list, tuple, np.ndarray)) else (v if isinstance(v, str) else float(v))
+    try:
+        out['center'] = list(center_pair(roi))
+    except Exception as e:  # reported by the caller
+        out['center'] = 'raised %s' % type(e).__name__
+    return out
+
+
+def state_diff(a, b, skip=()):
+    return [k for k in a if k not in skip and a[k] != b.get(k)]
+
+
+def restore(roi):
+    from glue.core.state import GlueSerializer, GlueUnSerializer
+    return GlueUnSerializer.loads(GlueSerializer(roi).dumps()).object('__main__')
+
+
 def run_impl(spec, ops):
     """apply ops to the real ROI and, in lockstep, to the oracle's exact region.
-    Returns (roi, truth, info) where info has: model op trees, centre reports, inexact flag."""
+    `copy` and `ser` (GlueSerializer round trip) are operations inside the sequence: the clone joins the list of tracked objects,
+    every later operation is applied to ALL of them, and after every step their public attributes (parameters, theta, centre) must be
+    identical; the region that is compared with the model / oracle at the end is the most recent clone.  (A restored polygon restarts
+    at theta = 0 - the vertices are saved, the position angle is not, and glue's test-suite pins that - so from there on only the
+    restored object is followed.)
+    Returns (roi, truth, info) where info has: model op trees, centre reports, inexact flag, tracks, problems."""
     from glue.core import roi as R_
-    roi = build(spec)
+    tracks = [build(spec)]
     truth = Truth.of_spec(spec)
     cur_ang = spec_angle(spec)          # absolute angle spec for rect / ellipse
-    poly_theta = 0.0                    # PolygonalROI.theta as the code tracks it
+    poly_theta = 0.0                    # PolygonalROI.theta as the code should track it
     poly_rot = (F(1), F(0))
     kind = spec[0]
     mops = []
     exact = kind == 'range' or (kind == 'rect' and ang_exact(cur_ang))
     centres = []
-    for o in ops:
+    problems = []
+    for step, o in enumerate(ops):
+        roi = tracks[-1]
         if o[0] == 'move':
             before = center_pair(roi)
             tx, ty = float(o[1]), float(o[2])
-            if kind == 'range':
-                t = tx if spec[1] == 'x' else ty
-                roi.move_to(t)
-            else:
-                roi.move_to(tx, ty)
+            for t_ in tracks:
+                if kind == 'range':
+                    t_.move_to(tx if spec[1] == 'x' else ty)
+                else:
+                    t_.move_to(tx, ty)
             after = center_pair(roi, spec)
             truth.translate(F(tx) - F(before[0]), F(ty) - F(before[1]))
             centres.append((before, (tx, ty), after))
@@ -339,39 +378,72 @@ def run_impl(spec, ops):
             ang = o[1]
             th = ang_theta(ang)
             if kind in ('rect', 'ell'):
-                roi.rotate_to(th)
+                for t_ in tracks:
+                    t_.rotate_to(th)
                 c, s = ang_cs(ang)
                 truth.set_angle(c, s)
                 cur_ang = ang
-                mops.append((2, [branch_of(th), 0, q(c), q(s)]))
+                mops.append((6, [branch_of(th), 0, q(c), q(s)]))
                 exact = exact and ang_exact(ang)
             else:
                 before = center_pair(roi, spec)
                 new_rot = ang_cs(ang)
                 d = compose(new_rot, inverse(poly_rot))
                 dth = (0 if th is None else th) - poly_theta
-                roi.rotate_to(th)
+                for t_ in tracks:
+                    t_.rotate_to(th)
                 truth.rotate_about((F(before[0]), F(before[1])), d[0], d[1])
                 poly_theta = 0 if th is None else th
                 poly_rot = new_rot
-                mops.append((2, [0, 1 if poly_skip(dth) else 0, q(d[0]), q(d[1])]))
+                # absolute angle: the model keeps theta itself and turns by the difference
+                mops.append((6, [0, 1 if poly_skip(dth) else 0, q(new_rot[0]), q(new_rot[1])]))
                 exact = False
         elif o[0] == 'topoly':
-            vx, vy = roi.to_polygon()
-            roi = R_.PolygonalROI(vx, vy)
+            tracks = [R_.PolygonalROI(*t_.to_polygon()) for t_ in tracks]
             truth = truth.rect_polygon()
             kind = 'poly'
             spec = ('poly', None)
+            poly_theta, poly_rot = 0.0, (F(1), F(0))
             mops.append((3, []))
             exact = False
+        elif o[0] == 'copy':
+            new = roi.copy()
+            df = state_diff(public_state(roi), public_state(new))
+            if type(new) is not type(roi) or df:
+                problems.append('step %d copy(): attributes differ from the original: %s' % (step, df))
+            tracks.append(new)
+            mops.append((4, []))
+        elif o[0] == 'ser':
+            new = restore(roi)
+            lost = ('theta',) if kind == 'poly' else ()
+            df = state_diff(public_state(roi), public_state(new), skip=lost)
+            if type(new) is not type(roi) or df:
+                problems.append('step %d save/restore: attributes differ from the original: %s' % (step, df))
+            if kind == 'poly':
+                if float(new.theta) != 0.0:
+                    problems.append('step %d save/restore: polygon theta %r (the vertices are saved, the angle restarts at 0)' % (step, new.theta))
+                tracks = [new]
+                poly_theta, poly_rot = 0.0, (F(1), F(0))
+            else:
+                tracks.append(new)
+            mops.append((5, []))
         else:
             raise ValueError(o)
+        if len(tracks) > 1:
+            ref = public_state(tracks[-1])
+            for it, t_ in enumerate(tracks[:-1]):
+                df = state_diff(ref, public_state(t_))
+                if df:
+                    problems.append('after step %d (%s): object %d and the latest clone differ in %s' % (step, o[0], it, df))
     info = Evaluated()
     info.mops = mops
     info.centres = centres
     info.exact = exact
     info.final_kind = kind
-    return roi, truth, info
+    info.tracks = tracks
+    info.problems = problems
+    info.theta_cs = poly_rot if kind == 'poly' else (ang_cs(cur_ang) if kind in ('rect', 'ell') else None)
+    return tracks[-1], truth, info
 
 
 def q(x):
@@ -543,6 +615,19 @@ class Batch:
             R.fail('oracle', small, {'why': 'contains() differs from the exact geometry away from the boundary', 'point': P[i].tolist(),
                                     'contains': bool(impl[i]), 'truth_inside': orc[i] == 1, 'eps': float(eps), 'n_bad': len(bad)},
                    key=None)
+        # copy() / save-restore inside the sequence: every tracked object must have stayed identical to the latest clone
+        if info.problems:
+            small_ops = shrink_problem(spec, ops)
+            R.fail('oracle', dict(case, ops=jspec(small_ops), points=P[:1].tolist()),
+                   {'why': 'a copy / restored region does not behave like the original', 'problems': run_impl(spec, small_ops)[2].problems[:4]}, key=None)
+        for it, t_ in enumerate(info.tracks[:-1]):
+            other = np.asarray(t_.contains(P[:, 0], P[:, 1])).astype(bool)
+            if not np.array_equal(other, impl):
+                i = int(np.nonzero(other != impl)[0][0])
+                R.fail('oracle', dict(case, points=[P[i].tolist()]),
+                       {'why': 'the original and its copy contain different points after the same operations', 'object': it,
+                        'original_contains': bool(other[i]), 'copy_contains': bool(impl[i])}, key=None)
+                break
         # centre placement after a move
         for before, target, after in info.centres:
             tol = 1e-9 * float(max(truth.scale(), 1))
@@ -554,6 +639,8 @@ class Batch:
             if abs(after[0] - tgt[0]) > tol or abs(after[1] - tgt[1]) > tol:
                 R.fail('oracle', case, {'why': 'center() after move_to is not the requested centre', 'target': target, 'center': after}, key=None)
         line = enc((1, [q(eps), spec_tree(spec), (0, info.mops), (0, [(0, [q(a), q(b)]) for a, b in PE])]))
+        th_impl = getattr(roi, 'theta', None)
+        extra = (info.theta_cs, None if th_impl is None else float(th_impl))
         self.items.append((case, line, impl, orc, ctr, eps, truth, spec, ops, extra))
         return roi, truth, info, impl, orc, eps
 
@@ -588,6 +675,13 @@ class Batch:
             tol = 1e-9 * float(max(truth.scale(), 1))
             if spec[0] == 'poly' or any(o_[0] == 'topoly' for o_ in ops):
                 tol = max(tol, poly_center_tol(truth))
+            # position angle: model (cos, sin) vs the implementation's theta attribute
+            if extra is not None and extra[0] is not None and extra[1] is not None and len(kids(o)) > 2:
+                mth = kids(o)[2]
+                mc = F(kids(mth)[0][1][0][0], kids(mth)[0][1][1][0])
+                ms = F(kids(mth)[1][1][0][0], kids(mth)[1][1][1][0])
+                if abs(float(mc) - math.cos(extra[1])) > 1e-8 or abs(float(ms) - math.sin(extra[1])) > 1e-8:
+                    R.fail('correspondence', case, {'why': 'model position angle != implementation theta', 'model': [float(mc), float(ms)], 'impl_theta': extra[1]})
             if abs(float(mcx) - ctr[0]) > tol or abs(float(mcy) - ctr[1]) > tol:
                 R.fail('correspondence', case, {'why': 'model center != implementation center', 'model': [float(mcx), float(mcy)], 'impl': ctr, 'tol': tol})
         self.items = []
@@ -633,6 +727,26 @@ class Collect:
 
     def count(self, *a, **k):
         pass
+
+
+def shrink_problem(spec, ops):
+    """shortest subsequence of ops on which a copy / restored object still diverges"""
+    ops = list(ops)
+
+    def bad(o_):
+        try:
+            return bool(run_impl(spec, o_)[2].problems)
+        except Exception:
+            return False
+    changed = True
+    while changed:
+        changed = False
+        for i in range(len(ops)):
+            cand = ops[:i] + ops[i + 1:]
+            if ops_valid(spec, cand) and bad(cand):
+                ops, changed = cand, True
+                break
+    return ops
 
 
 def point_violates(spec, ops, p):
@@ -749,6 +863,9 @@ def random_ops(rng, spec, maxlen):
     kind = spec[0]
     for _ in range(n):
         u = rng.random()
+        if rng.random() < 0.2:
+            ops.append(rng.choice([('copy',), ('copy',), ('ser',)]))
+            continue
         if u < 0.5 or kind in ('circ', 'ann', 'range'):
             ops.append(('move', dy(rng, -8, 8, 4), dy(rng, -8, 8, 4)))
         elif u < 0.9:
@@ -796,16 +913,17 @@ def stream_small(R):
                 base.append(poly_spec(name, closed=closed, numpy=npy))
     alphabet = [('move', F(5, 2), F(-3, 4)), ('move', F(0), F(0)),
                 ('rot', ('mult', 1, 0)), ('rot', ('mult', 2, 0)), ('rot', ('mult', 4, 0)), ('rot', ('mult', 2, 34)),
-                ('rot', ('pyth', 3, 4, 5)), ('rot', ('pyth', -8, -15, 17)), ('topoly',)]
+                ('rot', ('pyth', 3, 4, 5)), ('rot', ('pyth', -8, -15, 17)), ('topoly',), ('copy',), ('ser',)]
     maxlen = R.pick(1, 2)
     n = 0
     for spec in base:
         seqs = [()]
         for L in range(1, maxlen + 1):
-            seqs += list(itertools.product(alphabet, repeat=L))
+            # copy / restore: single steps here; sequences with them are the business of stream_copy_sequences
+            seqs += list(itertools.product(alphabet if L == 1 else alphabet[:9], repeat=L))
         if spec[0] in ('rect', 'ell') and spec[5] is not None and spec[5][0] == 'mult' and spec[5][2] != 0:
             # the near-multiple angles matter for the initial containment test: short sequences only
-            seqs = [()] + ([(a,) for a in alphabet[:1] + alphabet[6:7]] if R.quick() else [(a,) for a in alphabet])
+            seqs = [()] + ([(a,) for a in alphabet[:1] + alphabet[6:7] + alphabet[9:10]] if R.quick() else [(a,) for a in alphabet])
         for iseq, ops in enumerate(seqs):
             if not ops_valid(spec, ops):
                 continue
@@ -825,7 +943,7 @@ def stream_small(R):
     B.finish()
     R.stream('small', cases=n, exhaustive=True,
              bound='rectangles/ellipses at %d angles (k*pi/2 + {0, +-9e-13, +-1.2e-10, +-1.9e-9, +-1.5e-8}, Pythagorean), %d polygons (open/closed, list/numpy vertices), '
-                   'circle/annulus/range; all op sequences of length <= %d over a 9-letter alphabet (move, rotate, to_polygon); regions whose initial angle is off a '
+                   'circle/annulus/range; all op sequences of length <= %d over an 11-letter alphabet (move, rotate, to_polygon, copy, save/restore); regions whose initial angle is off a '
                    'multiple of pi/2 by a small offset get sequences of length <= 1' % (len(angs), len(POLYS) * 4, maxlen))
 
 
@@ -839,6 +957,41 @@ def ops_valid(spec, ops):
                 return False
             kind = 'poly'
     return True
+
+
+def stream_copy_sequences(R):
+    """copy() and the GlueSerializer round trip as operations INSIDE sequences, for every region class: all sequences of length 3 over
+    {move, rotate to three absolute angles (one of them 0), to_polygon, copy, save/restore} that contain a copy or a restore.
+    All tracked objects (original, copies, restored ones) get every later operation and must keep identical public attributes
+    (parameters, theta, centre) and contain the same points; the latest clone is compared with the model and the exact oracle."""
+    B = Batch(R, 'copy_sequences')
+    rng = R.subrng('copyseq')
+    alphabet = [('move', F(3, 2), F(-1, 4)), ('rot', ('pyth', 3, 4, 5)), ('rot', ('mult', 0, 0)), ('rot', ('pyth', 5, 12, 13)),
+                ('topoly',), ('copy',), ('ser',)]
+    seqs = [sq_ for sq_ in itertools.product(alphabet, repeat=3) if any(o[0] in ('copy', 'ser') for o in sq_)]
+    seqs += [(('rot', ('pyth', 3, 4, 5)), ('copy',), ('move', F(1), F(1)), ('rot', ('mult', 1, 0))),
+             (('rot', ('pyth', 3, 4, 5)), ('copy',), ('copy',), ('rot', ('mult', 0, 0))),
+             (('rot', ('pyth', 3, 4, 5)), ('ser',), ('copy',), ('rot', ('pyth', 5, 12, 13)))]
+    n = 0
+    for ir, spec in enumerate(STRUCT_REGIONS):
+        if spec[0] == 'poly':
+            spec = ('poly', tuple((F(a), F(b)) for a, b in spec[1])) + tuple(spec[2:])
+        for isq, ops in enumerate(seqs):
+            if not ops_valid(spec, ops):
+                continue
+            if R.quick() and spec[0] in ('circ', 'ann', 'range') and isq % 2:
+                continue
+            try:
+                _, truth, _ = run_impl(spec, ops)
+            except Exception:
+                truth = Truth.of_spec(spec)
+            P = make_points(truth, rng, R.pick(10, 16), R.pick(6, 10), truth.scale() * EPS_SCALE)
+            B.add(spec, ops, P)
+            n += 1
+    B.finish()
+    R.stream('copy_sequences', cases=n, exhaustive=True,
+             bound='9 regions (every class) x all length-3 sequences over {move, rotate_to 3 angles, to_polygon, copy, save/restore} containing a '
+                   'copy or a restore (+ 3 longer ones); 16-26 points')
 
 
 def stream_random(R):
@@ -1008,7 +1161,7 @@ def stream_projected(R):
         spec = random_spec(rng)
         while spec[0] == 'range':
             spec = random_spec(rng)
-        ops = random_ops(rng, spec, 1)
+        ops = random_ops(rng, spec, 3)
         if spec[0] == 'poly' and not poly_center_reliable(spec, ops):
             ops = ()
         m = matrices(rng)
@@ -1309,6 +1462,7 @@ def run(R):
     stream_malformed(R)
     stream_categorical(R)
     stream_small(R)
+    stream_copy_sequences(R)
     stream_random(R)
     stream_shapes(R)
     stream_projected(R)
@@ -1321,7 +1475,7 @@ def run(R):
 def replay(R, case):
     st = case.get('stream', '')
     out = {'case': case}
-    if 'roi' in case and 'points' in case and st in ('small', 'random', 'shapes'):
+    if 'roi' in case and 'points' in case and st in ('small', 'random', 'shapes', 'copy_sequences'):
         spec = unjspec(case['roi'])
         if spec[0] == 'poly':
             spec = ('poly', tuple(tuple(v) for v in spec[1])) + tuple(spec[2:])
